@@ -29,6 +29,14 @@ def run_check(pid, tier, root, seed=0):
         cmd = '/venv/bin/python -m sfcv check %s --tier %s' % (pid, tier)
         return report.finish(check, seed, cmd)
     except AnalysisError as e:
+        # an anchor that could not be followed any further is an analysis error - unless obligations refuted before that
+        # point already explain it (then the refutations are the verdict, the lost anchor is reported with them)
+        try:
+            if report.has_new_refutations(check):
+                check.analysed['notes'].append('analysis stopped early: %s' % e)
+                return report.finish(check, seed, '/venv/bin/python -m sfcv check %s --tier %s' % (pid, tier), ignore_problems=True)
+        except Exception:
+            pass
         report.emit('ANALYSIS-ERROR property=%s %s' % (pid, e))
         return 2
     except BrokenPipeError:
